@@ -7,7 +7,15 @@
     views [Vb], [Vk] (finite maps from resolved paths to nodes).  The laws are
     hypotheses of the theorems (section variables discharged into
     implications), not axioms; Proofs/LawsOsfs*.v proves them for the concrete
-    layering "two PrefixFS with disjoint prefixes over the OS filesystem".
+    layering "two PrefixFS with disjoint prefixes over the OS filesystem"
+    (the layering "generic p=... q=..." of the correspondence check: base =
+    spy (PrefixFS pa OSFS), backup = spy (PrefixFS pb OSFS)), which makes
+    [C01_concrete_partial] below a closed theorem about [cfg_base c] /
+    [cfg_backup c], [c = mkConfig (Some pa) [] pb], with no law left as a
+    hypothesis.  Proofs/ConcreteExample.v exhibits a non-trivial instance of
+    its hypotheses (a world with a setuid file, a populated directory and a
+    relative symlink; nine operations of eight kinds) and checks that the
+    conclusion of the theorem agrees with running the model on it.
 
     Full statement of the property, for reference (not yet proved in this
     strength; see DESIGN.md section 4 for what is missing):
@@ -22,6 +30,7 @@ From stdpp Require Import gmap.
 From BFS Require Import Spec.CopySpecs.
 From BFS Require Import Backup.History.
 From BFS Require Import Proofs.BackupCopy Proofs.BackupTry Proofs.BackupRollback Proofs.BackupC01.
+From BFS Require Import Spec.ViewOsfs Proofs.LawsOsfs.
 
 (** the state in which a transaction begins satisfies the invariant *)
 Theorem C01_initial_invariant :
@@ -61,6 +70,25 @@ Theorem C01_rollback_restores_partial :
   c01_stmt base backup Vb Vk tnb tnk accb acck rhb rhk whb whk B0.
 Proof. exact c01_spec. Qed.
 Print Assumptions C01_rollback_restores_partial.
+
+(** C01 for histories of covered operations, closed: the concrete layering
+    base = PrefixFS([pa]), backup = PrefixFS([pb]) over the OS filesystem of
+    the model, [pa] and [pb] cleaned absolute paths other than the root,
+    neither below the other.  No law is assumed: [the_api_laws],
+    [the_api_laws2] of Proofs/LawsOsfs.v discharge them.  (Non-vacuity:
+    [c01_concrete_instance], [c01_concrete_by_computation] of
+    Proofs/ConcreteExample.v.) *)
+Theorem C01_concrete_partial :
+  forall pa pb, prefix_ok pa -> prefix_ok pb -> disjoint_prefixes pa pb ->
+  forall B0, all_small B0 ->
+  forall w0 ops w,
+    initial (Vp pa) (Vp pb) clean clean (acc_p pa) (acc_p pb) B0 w0 ->
+    good_run (cfg_base (gcfg pa pb)) (cfg_backup (gcfg pa pb)) (Vp pa) w0 ops w ->
+    exists w', b_rollback (cfg_base (gcfg pa pb)) (cfg_backup (gcfg pa pb)) w = (MOk tt, w') /\
+               store_eqv (Vp pa w') B0 /\ (forall p, p <> s_root -> Vp pb w' !! p = None) /\
+               w_infos w' = ∅.
+Proof. exact c01_concrete. Qed.
+Print Assumptions C01_concrete_partial.
 
 (** The unrestricted statement is false of the faithful model (recorded
     finding D14): the tree { /bk, /f = "hi", /l -> /f } in the documented
